@@ -15,7 +15,7 @@ def runs(tier, seed, replay):
 CONFIG = {
     "runs": runs,
     "status": "full at model level: the whole d4 loader is a Gallina function (Model/LoadD4.v load_d4_gen: lexer, build_d4_ddnnf on a "
-              "StableGraph model with petgraph's adjacency order / edge and node removal / index recycling, the three traversals, rebuild) "
+              "StableGraph model with petgraph's adjacency order / edge and node removal / index recycling, the three traversals, rebuild; follows the loader repairs F11 and F12) "
               "with the iteration order of the hash set in balance_or_children as an explicit permutation oracle. "
               "C18_loader_function: for the loader in /repo now (sort after the hash order) the node vector and number_of_variables are the "
               "same for every two oracles; C18_loader_is_load_d4: and equal the parameter-free load_d4; C18_refuted_loader_v0: the loader "
